@@ -3,6 +3,7 @@ package pts
 import (
 	"bufio"
 	"errors"
+	"fmt"
 	"io"
 	"strconv"
 	"strings"
@@ -48,6 +49,7 @@ func ReadPointCloud(in io.Reader) (*modeling.Mesh, error) {
 	readColor := false
 
 	curLine := 0
+	columns := -1
 	for scanner.Scan() && curLine < parsedCount {
 		line := strings.TrimSpace(scanner.Text())
 		if line == "" {
@@ -55,6 +57,16 @@ func ReadPointCloud(in io.Reader) (*modeling.Mesh, error) {
 		}
 
 		contents := strings.Fields(line)
+
+		if len(contents) < 3 {
+			return nil, fmt.Errorf("pts point %d has %d columns, expected at least 3", curLine, len(contents))
+		}
+
+		if columns == -1 {
+			columns = len(contents)
+		} else if columns != len(contents) {
+			return nil, fmt.Errorf("pts point %d has %d columns, previous points have %d", curLine, len(contents), columns)
+		}
 
 		if len(contents) > 2 {
 			pos, err := ParseVec3(contents[0], contents[1], contents[2])
@@ -87,6 +99,10 @@ func ReadPointCloud(in io.Reader) (*modeling.Mesh, error) {
 
 	if scanner.Err() != nil {
 		return nil, scanner.Err()
+	}
+
+	if curLine < parsedCount {
+		return nil, fmt.Errorf("pts declares %d points but only %d were found: %w", parsedCount, curLine, io.ErrUnexpectedEOF)
 	}
 
 	v3Data := make(map[string][]vector3.Float64)
